@@ -2,6 +2,7 @@ from pyvc import runner
 from contracts import hashdata, verdicts, sigalgs
 
 PID = 'C01'
+PENDING_TRIAGE = False
 
 
 def items():
@@ -11,7 +12,7 @@ def items():
 def run(tier='quick', seed=0, only=None):
     its = [i for i in items() if not only or only in i.cid]
     bounded = []
-    if not only:
+    if not only and PENDING_TRIAGE is False:
         from bounded import sig_soundness as _b
         bounded = [_b.component]
     return runner.run_property(PID, its, bounded=bounded, tier=tier, seed=seed, level='proof',
